@@ -125,9 +125,32 @@ def owns_uncovered(peer):
     return sctp is not None and getattr(sctp, "mid", None) is None
 
 
+class Heartbeat:
+    """Counts 50 ms ticks of the running loop: a wall-clock cap only yields a verdict when the loop was alive
+    (>= 60 % of the ticks it should have had), otherwise the machine was starved and the case is inconclusive."""
+
+    def __init__(self):
+        self.ticks = 0
+        self.t0 = time.monotonic()
+        self.task = asyncio.get_running_loop().create_task(self._run())
+
+    async def _run(self):
+        while True:
+            await asyncio.sleep(0.05)
+            self.ticks += 1
+
+    def healthy(self):
+        elapsed = time.monotonic() - self.t0
+        return self.ticks >= 0.6 * elapsed / 0.05
+
+    def stop(self):
+        self.task.cancel()
+
+
 async def check_connectivity(a, b, out, desc, cap=20.0):
     out.counters["connectivity_checks"] += 1
     t0 = time.monotonic()
+    hb = Heartbeat()
     good_ice = ("completed", "connected")
     pending = None
     while True:
@@ -143,15 +166,18 @@ async def check_connectivity(a, b, out, desc, cap=20.0):
                     pending.append((peer.name, label, st))
         if dead:
             out.fail("transport-dead", f"negotiated transports ended instead of connecting: {dead[:4]}", desc | {"pending": pending[:6]})
+            hb.stop()
             return False
         if not pending:
+            hb.stop()
             break
         if time.monotonic() - t0 > cap:
             stuck_new = [p for p in pending if p[2] == "new"]
-            if stuck_new and len(stuck_new) == len(pending):
+            if stuck_new and len(stuck_new) == len(pending) and hb.healthy():
                 out.fail("transport-never-started", f"negotiated transports still 'new' after {cap:.0f} s: {pending[:6]}", desc)
             else:
                 out.inconclusive = f"transports still {sorted({p[2] for p in pending})} at the cap"
+            hb.stop()
             return False
         await asyncio.sleep(0.02)
     for peer in (a, b):
@@ -166,8 +192,23 @@ async def check_connectivity(a, b, out, desc, cap=20.0):
     return True
 
 
-async def check_channels(a, b, out, desc, cap=10.0):
+async def check_channels(a, b, out, desc, cap=15.0):
     """Every locally created channel of either peer: opens on both sides and carries one uid message each way."""
+    hb = Heartbeat()
+    try:
+        await _check_channels(a, b, out, desc, cap, hb)
+    finally:
+        hb.stop()
+
+
+def cap_verdict(out, hb, key, what, desc):
+    if hb.healthy():
+        out.fail(key, what, desc)
+    else:
+        out.inconclusive = f"{key}: cap reached while the event loop was starved ({hb.ticks} ticks)"
+
+
+async def _check_channels(a, b, out, desc, cap, hb):
     pairs = []
     t0 = time.monotonic()
     for x, y in ((a, b), (b, a)):
@@ -185,8 +226,8 @@ async def check_channels(a, b, out, desc, cap=10.0):
         while ch.readyState != "open" and time.monotonic() - t0 < cap:
             await asyncio.sleep(0.02)
         if ch.readyState != "open":
-            out.fail("channel-not-open", f"{x.name}: channel {ch.label!r} (id {ch.id}, negotiated={ch.negotiated}) is {ch.readyState} "
-                     f"{cap:.0f} s after the transports connected", desc)
+            cap_verdict(out, hb, "channel-not-open", f"{x.name}: channel {ch.label!r} (id {ch.id}, negotiated={ch.negotiated}) is {ch.readyState} "
+                        f"{cap:.0f} s after the transports connected", desc)
             continue
         if ch.negotiated:
             twin = next((c for c in y.channels if c.negotiated and c.id == ch.id), None)
@@ -197,7 +238,7 @@ async def check_channels(a, b, out, desc, cap=10.0):
                 if twin is None:
                     await asyncio.sleep(0.02)
         if twin is None:
-            out.fail("channel-no-counterpart", f"{x.name}: channel {ch.label!r} (id {ch.id}) open but {y.name} never announced it", desc)
+            cap_verdict(out, hb, "channel-no-counterpart", f"{x.name}: channel {ch.label!r} (id {ch.id}) open but {y.name} never announced it", desc)
             continue
         got = {"xy": [], "yx": []}
         twin.on("message", got["xy"].append)
@@ -218,8 +259,12 @@ async def check_channels(a, b, out, desc, cap=10.0):
         while (got["xy"] != [m1] or got["yx"] != [m2]) and time.monotonic() - t1 < 5.0:
             await asyncio.sleep(0.02)
         if got["xy"] != [m1] or got["yx"] != [m2]:
-            out.fail("channel-message", f"channel {ch.label!r} (id {ch.id}, maxRetransmits={ch.maxRetransmits}): sent {m1!r}/{m2!r}, "
-                     f"received {got}", desc)
+            wrong = [m for m in got["xy"] if m != m1] + [m for m in got["yx"] if m != m2] or len(got["xy"]) > 1 or len(got["yx"]) > 1
+            if wrong:
+                out.fail("channel-message", f"channel {ch.label!r} (id {ch.id}): sent {m1!r}/{m2!r}, received {got}", desc)
+            else:
+                cap_verdict(out, hb, "channel-message", f"channel {ch.label!r} (id {ch.id}, maxRetransmits={ch.maxRetransmits}): sent {m1!r}/{m2!r}, "
+                            f"received {got} within 5 s", desc)
         else:
             out.counters["messages_exchanged"] += 2
 
